@@ -1,3 +1,3 @@
 #!/bin/bash
 # build and run the repository's own test suite on /repo's working tree (guard off: no hooks exist)
-cmake -G Ninja -S /repo -B /repo/_build -DGLM_BUILD_TESTS=ON -DCMAKE_BUILD_TYPE=RelWithDebInfo -DCMAKE_CXX_FLAGS=-Wno-error >/dev/null 2>&1 && cmake --build /repo/_build -j16 2>&1 | grep -E "error|FAILED" | head; ctest --test-dir /repo/_build -j8 --timeout 900 2>&1 | grep -E "tests passed|Failed|\*\*\*" | head
+cmake -G Ninja -S /repo -B /repo/_build -DGLM_BUILD_TESTS=ON -DCMAKE_BUILD_TYPE=RelWithDebInfo -DCMAKE_CXX_FLAGS=-Wno-error >/dev/null 2>&1 && cmake --build /repo/_build -j16 2>&1 | grep -E "error|FAILED" | head -5; test ${PIPESTATUS[0]} = 0 || { echo BUILD-FAILED; exit 1; }; ctest --test-dir /repo/_build -j8 --timeout 900 2>&1 | grep -E "tests passed|Failed|\*\*\*" | head
